@@ -482,7 +482,10 @@ class Transmitter(AbstractTransmitter):
                 index_previous = index - 1
                 timestep = self.timesteps[index]
                 timestep_previous = self.timesteps[index_previous] if index_previous >= 0 else datetime(1800, 1, 1)  # or pd.Timestamp.min?
-                sec_since_timestep = (event.time - timestep_previous).total_seconds()
+                since_timestep = event.time - timestep_previous
+                # total_seconds() stops at microseconds: keep the nanoseconds
+                # of events stamped with pandas Timestamps.
+                sec_since_timestep = since_timestep.total_seconds() + getattr(since_timestep, "nanoseconds", 0) / 1e9
                 if sec_since_timestep < 0:
                     raise ValueError(
                         'Unexpected sec_since_timestep={}'
